@@ -12,7 +12,14 @@ import (
 func verifNewDest(spool bool, connBuf, ioBuf int) *Destination {
 	keepsafe_initial_cap = 4
 	m, _ := matcher.New("", "", "", "", "", "")
-	d, err := New("route", m, "127.0.0.1:2003", "/spool", spool, false, time.Second, time.Second, connBuf, ioBuf, 4, 1000, 10, time.Hour, time.Millisecond, time.Millisecond)
+	period := time.Second
+	spoolDir := "/spool"
+	if !verifIsSymbolic() {
+		// natively the flush and reconnect tickers cannot be fired by hand: let them run fast instead
+		period = 20 * time.Millisecond
+		spoolDir = verifTempDir()
+	}
+	d, err := New("route", m, verifEndpointAddr(), spoolDir, spool, false, period, period, connBuf, ioBuf, 4, 1000, 10, time.Hour, time.Millisecond, time.Millisecond)
 	if err != nil {
 		panic(err)
 	}
@@ -52,6 +59,9 @@ func verifFlushConns() {
 		}
 	}
 	verifSettle()
+	if !verifIsSymbolic() {
+		time.Sleep(150 * time.Millisecond)
+	}
 }
 
 // VerifC06Steady: hand-off never stalls whatever the endpoint does, and in the steady states every line
